@@ -149,12 +149,12 @@ func TestC02(t *testing.T) {
 		masks = EnumMasks(n, k, AllFaultActions)
 	}
 	var cases []run.Case
-	for _, v := range AllVariants() {
+	for _, v := range append(AllVariants(), VariantsCombined()...) {
 		for _, m := range masks {
 			v, m := v, m
 			cases = append(cases, run.Case{ID: v.Name + "/" + m.String(), Run: func(t *testing.T) run.Outcome { return c02Run(t, p, v, m, env.Seed+1) }})
 		}
 	}
 	run.Main(t, "C02", cases, map[string]any{"N_per_direction": n, "max_faults": k, "fault_kinds": fmt.Sprint(AllFaultActions),
-		"variants": len(AllVariants()), "masks": len(masks), "thorough_extra": "all 2^12 drop-only masks over N=6"})
+		"variants": len(AllVariants()) + len(VariantsCombined()), "masks": len(masks), "thorough_extra": "all 2^12 drop-only masks over N=6"})
 }
